@@ -192,6 +192,11 @@ func (c *Conn) readCommand(dec *imapwire.Decoder) error {
 	if !dec.ExpectAtom(&tag) || !dec.ExpectSP() || !dec.ExpectAtom(&name) {
 		return fmt.Errorf("in command: %w", dec.Err())
 	}
+	if strings.Contains(tag, "+") {
+		// A tagged response with such a tag would read as a continuation
+		// request
+		return fmt.Errorf("in command: invalid tag %q", tag)
+	}
 	name = strings.ToUpper(name)
 
 	numKind := NumKindSeq
